@@ -142,6 +142,93 @@ CLAIMED["C14"] = _xref("reads/writes recorded on the FieldAnalysis returned for 
 CLAIMED["C15"] = _xref("const-string xrefs per string, new-instance and const-class lists per class and per method")
 CLAIMED["C16"] = _xref("the projection of classes, methods, fields, strings and all xrefs being identical to the single-DEX analysis for every split and add order")
 
+
+def _simple(spec, text, note, tech, ref):
+    return dict(spec=spec, text=text, note=note, technique=tech, ref=ref)
+
+
+CLAIMED["C17"] = _simple(["Rename", "Rename_Trace"],
+    "Rename.tla holds two models advanced by the same actions: RenameDict (the property: a dictionary item -> last name given to that very item, constants untouched) and "
+    "RenameHook (shaped like the code: hook table keyed by string id, id-item and encoded-item caches, reload cascade of a class rename). TLC checks the dictionary invariants and that the "
+    "hook model deviates only through shared string ids on all histories of <= 3 (4) operations, and produces the refinement counterexample. Every enumerated history is replayed on fresh DEX "
+    "objects of a generated universe (two methods, a field and a const-string sharing one string id, a class descriptor shared with a const-string); after each operation the names of all items "
+    "are observed and the histories (plus long random ones on the generated universe and on the shipped classes.dex) are validated step by step by Rename_Trace against the dictionary model.",
+    "Trusted: vf/dexgen.py, TLC, the projection of names to (original / k-th new name). The recorded known finding is matched only when the observed name was assigned through another item sharing the string id.",
+    "TLA+ dictionary model vs implementation-shaped hook model checked with TLC (refinement counterexample); histories replayed on real objects; per-step trace validation", "4/C17")
+CLAIMED["C18"] = _simple(["Dominators", "DominatorsMC", "Dominators_Trace"],
+    "Dominators.tla defines dominance by path removal and the immediate dominator; TLC checks on every rooted digraph with <= 3 (thorough: 4, 38 912 graphs) nodes incl. self loops that the "
+    "definition yields a tree, is antisymmetric and agrees with a second formulation; each enumerated graph is given to the decompiler's Graph (normal and catch edges) and dom_lt's result compared; "
+    "all 1-2-node graphs, 4-node graphs (sampled in quick), 5-node random graphs (thorough) and random graphs of 6-300 nodes (irreducible, self loops, dense/sparse) are validated by Dominators_Trace, "
+    "which recomputes the dominator tree by definition.",
+    "Trusted: TLC, the Node/Graph construction of the harness. Rooted = every node reachable.",
+    "TLA+ definition of dominators model-checked with TLC; enumerated graphs replayed into dom_lt; results validated by a TLA+ trace spec", "4/C18")
+CLAIMED["C19"] = _simple(["Dominators", "DominatorsMC", "Dominators_Trace"],
+    "Dominators.tla defines the set of back-edge sets of all depth-first searches of a graph (DfsStep) and ValidRPO: entry = 1, a bijection onto 1..n and some search whose non-back edges all go "
+    "upwards (the statement read literally); TLC checks that a search exists for every enumerated graph; compute_rpo's numbering of every enumerated / sampled graph with <= 5 nodes is judged by "
+    "ValidRPO in Dominators_Trace, larger random graphs by the search-independent consequence (edges between different strongly connected components go upwards).",
+    "Trusted: TLC, the harness' graph construction. Another correct numbering scheme is accepted (no particular search is demanded).",
+    "TLA+ definition (exists a DFS explaining the numbering) evaluated by TLC on the implementation's numbering of enumerated and random graphs", "4/C19")
+CLAIMED["C20"] = _simple(["ReachDef", "ReachDefMC", "ReachDef_Trace"],
+    "ReachDef.tla defines use-def chains by paths without an intervening redefinition (parameters as definitions before the entry); ReachDefMC runs the worklist algorithm of BasicReachDef "
+    "(R, A, DB, kill sets) as TLC actions and checks that its fixpoint equals the path definition and that it terminates, on every rooted digraph of 2 nodes x <= 2 statements (thorough: 3 nodes) over 6 "
+    "statement kinds and 2 registers. Sampled final states are rebuilt as real Graphs with statement nodes and given to dataflow.build_def_use (UD compared, DU must be its inverse); those, random graphs "
+    "(<= 30 nodes, catch edges, 4 registers) and the graphs of shipped methods captured at the decompiler's own call of build_def_use are validated by ReachDef_Trace.",
+    "Trusted: TLC, the mock statement objects, the capture wrapper (registers renumbered).",
+    "TLA+ path definition + worklist algorithm as actions model-checked with TLC; graphs replayed into build_def_use; chains validated by a TLA+ trace spec", "4/C20")
+CLAIMED["C22"] = _simple(["Intervals", "Determinism_Trace"],
+    "Intervals.tla models interval partition, Interval.compute_end, the derived graph and the latch of second-level loops with the iteration order of the identity-hashed set as nondeterministic choice; "
+    "TLC computes for every rooted CFG on 4 (5) nodes the set of possible latch maps: with set order it is not a singleton (counterexample graphs), with iteration by reverse-post-order number it is. "
+    "The order-sensitive graphs of the model (and a sample of the others) are realised as bytecode and decompiled under 8 (24) identity-hash policies (vf/hashpolicy.py gives nodes, intervals and IR variables "
+    "a seed-dependent hash, i.e. a deterministic stand-in for memory layout); shipped methods are decompiled under the policies and in fresh processes with different PYTHONHASHSEED, allocation offsets and "
+    "method orders; all digests per method must be equal (Determinism_Trace).",
+    "Trusted: the hash policy as a faithful stand-in for allocation-address variation; TLC. The model covers compute_end / latch selection; the other iteration sites are covered differentially only.",
+    "TLA+ model with iteration order as nondeterminism (TLC enumerates order-sensitive graphs); those graphs and real methods decompiled under controlled identity hashes and in fresh processes", "4/C22")
+CLAIMED["C23"] = _simple(["JavaLiteral", "JavaLiteralMC", "JavaLiteral_Trace"],
+    "JavaLiteral.tla is Java's reading of a string literal (Unicode-escape pre-pass with backslash parity and multiple u, escape sequences incl. octal, raw line terminators and early quotes as errors) and a "
+    "reference writer; TLC checks Lex(Write(s)) = s on unit strings over boundary units, totality on all texts of <= 5 (6) characters over a lexically interesting alphabet, and spot checks. writer.string() is "
+    "called for the enumerated strings, all 65 536 one-unit strings and random strings over the full range (pairs, lone surrogates); JavaLiteral_Trace demands Lex(literal) = code units of the string. "
+    "In every run the lexer specification itself is validated against javac 17 + the JVM on a sample of androguard's literals and hand-made escape torture literals.",
+    "Trusted: TLC; javac/JVM as the ground truth that validates the lexer spec.",
+    "TLA+ lexer specification (validated against javac) evaluated by TLC on the literals the implementation writes", "4/C23")
+CLAIMED["C24"] = _simple(["TypeName", "TypeNameMC", "TypeName_Trace"],
+    "TypeName.tla defines the set of admissible Java names of a descriptor (primitive keywords, dotted class names, the java.lang. prefix optional only for direct members, [] per dimension); TLC enumerates "
+    "all class descriptors of <= 3 (4) segments over {java, lang, language, javax, annotation, invoke, Foo, a} x 0-2 (3) dimensions and the primitives; every state is replayed into decompiler.util.get_type and "
+    "dex.get_type and a sample into DvClass.get_source() (field, parameter and return types of a generated class); random descriptors are validated by TypeName_Trace.",
+    "Trusted: TLC string concatenation, vf/dexgen.py, the regular expressions reading types out of the printed class.",
+    "TLA+ definition of admissible names; TLC-enumerated descriptors replayed into the renderers; renderings validated by a TLA+ trace spec", "4/C24")
+CLAIMED["C25"] = _simple(["ShortCircuit", "ShortCircuit_Trace"],
+    "ShortCircuit.tla models condition graphs with expression objects shaped like Condition / CondBlock (isand, isnot, neg()), the four merge rules of short_circuit_struct with their side conditions and the "
+    "writer's negate-and-swap as actions, and the printed form (isnot negates cond1 while printing); TLC checks on all chain graphs of 2 and 3 condition nodes over 3 exits, for every sequence of actions, that "
+    "the exit reached for every truth assignment never changes (28 035 states for 3 nodes). The same graphs (4-node chains in thorough) are built from real CondBlocks, merged by short_circuit_struct and printed "
+    "by Writer with every (quick: sampled) subset of nodes negated while writing; the parsed printed conditions are routed by ShortCircuit_Trace for all assignments against the original chain.",
+    "Trusted: TLC, the mock comparison instructions, the parser of the printed condition.",
+    "TLA+ rewriting system with semantic-invariance invariant model-checked with TLC; same graphs run through the real merger and writer; printed conditions evaluated by a TLA+ trace spec", "4/C25")
+CLAIMED["C36"] = _simple(["SessionDB", "SessionDB_Trace"],
+    "SessionDB.tla models processes x {Count, Insert} on a table with a primary key; TLC explores all interleavings of 2 and 3 sessions: with the retrying insert AllCreated, DistinctIds and EveryoneFinishes "
+    "(liveness under weak fairness) hold, the count-then-insert variant yields the counterexample schedule. Every complete schedule of 2 sessions and 80 sampled (thorough: all) of 3 sessions is imposed on real "
+    "forked processes creating Session objects on one SQLite file (dataset's row count and insert of table 'session' gated by the parent); the event traces are validated by SessionDB_Trace, which advances the "
+    "model's table and evaluates the property at the end of each schedule.",
+    "Trusted: the gating of dataset.Table.__len__/insert as the linearization points, TLC. Table creation on an empty database is outside the modelled steps.",
+    "TLA+ interleaving model checked with TLC (safety + liveness); every schedule replayed with real OS processes; event traces validated by a TLA+ trace spec", "4/C36")
+CLAIMED["C37"] = _simple(["PathSandbox", "PathSandbox_Trace"],
+    "PathSandbox.tla models POSIX resolution of relative paths and the exporter's naming of class directories, .java files and method files in two modes (unchecked split, guarded); TLC shows the unchecked naming "
+    "leaves the output directory (counterexample) and the guarded one never does, on all class names of <= 4 segments over {a, .., ., '', long} x method names of <= 2 pieces. Sampled enumerated names and sharp "
+    "hand-picked ones are put into generated DEX files and exported by the real export_apps_to_format into a sandbox seven directory levels deep; every created path is collected by tree comparison and validated by PathSandbox_Trace.",
+    "Trusted: vf/dexgen.py, the directory-tree comparison, TLC. An export stopping with an exception is judged on what it created.",
+    "TLA+ path-resolution model checked with TLC; enumerated names exported by the real command in a sandbox; created paths validated by a TLA+ trace spec", "4/C37")
+CLAIMED["C38"] = _simple(["CleanName", "CleanNameMC", "CleanName_Trace"],
+    "CleanName.tla states the clauses of the property as predicates over run-length encoded names (character classes reserved / control / separator / space / dot / plain) and a reference cleaner; TLC checks on all "
+    "names of <= 3 (4) runs with lengths at the 230 boundary that the clauses are jointly satisfiable and clean names are kept. Sampled enumerated names (with and without uniqueness, with colliding files present) and "
+    "random names of 0..600 characters are passed to clean_file_name in a scratch directory; each result is judged clause by clause by CleanName_Trace.",
+    "Trusted: the classification of characters, the scratch-directory set-up, TLC. Control = U+0000..U+001F.",
+    "TLA+ predicates + reference cleaner model-checked with TLC; enumerated and random names replayed into the function; results validated by a TLA+ trace spec", "4/C38")
+CLAIMED["C39"] = _simple(["ApiLevels", "ApiLevels_Trace"],
+    "ApiLevels.tla defines Pick / PickMapping and the loader's re-request chain as an action; TLC checks for every non-empty level set within 1..8 and every request in -2..10 that the chain loads exactly the Pick in "
+    "at most one hop, that Pick is available and monotone, and termination. Every request -5..100 as int and as str is sent to load_permissions (permissions, groups) and load_api_specific_resource_module "
+    "(permissions, mappings); the returned data are identified with the level file(s) of equal content and validated by ApiLevels_Trace against the real directory listing.",
+    "Trusted: identification of loaded data by file content, TLC.",
+    "TLA+ fallback definition + loader action model-checked with TLC; every request replayed; loaded level validated by a TLA+ trace spec", "4/C39")
+
 NOT_YET = "check not built yet in this session (planned in DESIGN.md section 4)"
 
 
